@@ -57,6 +57,35 @@ def match_known(known, key):
         if fnmatch.fnmatchcase(key, k['match']): return k
     return None
 
+def pool_map(fn, jobs, opts, res):
+    """Run jobs in a process pool under a wall-clock budget; jobs not finished in time are reported as undecided."""
+    import concurrent.futures as cfu, signal
+    cap = opts.get('wall_cap', 900)
+    t0 = time.time()
+    ex = ProcessPoolExecutor(opts.get('procs', 8))
+    futs = {ex.submit(fn, j): j for j in jobs}
+    pending = set(futs)
+    try:
+        while pending:
+            left = cap - (time.time() - t0)
+            if left <= 0: break
+            done, pending = cfu.wait(pending, timeout=min(left, 5), return_when=cfu.FIRST_COMPLETED)
+            for f in done:
+                try: yield f.result()
+                except Exception as e:
+                    j = futs[f]; yield (j[0], j[1], j[2], None, {'queries': 0, 'time': 0, 'procs': 0}, 'worker failed: %r' % e)
+        if pending:
+            for f in pending:
+                j = futs[f]; f.cancel()
+                res.undecided.append('%s path %d: not finished within the wall budget of %ds' % (j[1], j[2], cap))
+                res.obligations += 1
+    finally:
+        for p in list(getattr(ex, '_processes', {}).values()):
+            try: p.terminate()
+            except Exception: pass
+        ex.shutdown(wait=False, cancel_futures=True)
+        subprocess.run(['pkill', '-P', str(os.getpid()), 'z3'], capture_output=True)
+
 def run_sym(res, specs, opts):
     """specs: list of dict(src, defs, mode, filter, label). Builds + runs + proves. Returns per-entry results."""
     rundir = os.path.join(build.WORK, 'run', res.pid)
@@ -83,15 +112,14 @@ def run_sym(res, specs, opts):
             if e.truncated: res.undecided.append('%s: path enumeration truncated' % e.name)
             for p in e.paths: jobs.append((fn, e.name, p.idx, dict(opts, **s.get('opts', {}))))
     results = {}
-    with ProcessPoolExecutor(opts.get('procs', 8)) as ex:
-        for fn, ename, pidx, r, st, err in ex.map(_prove_entry, jobs):
-            if err:
-                res.errors.append({'what': 'prover exception', 'entry': ename, 'path': pidx, 'diag': err[-3000:]}); continue
-            results.setdefault((fn, ename), {})[pidx] = r
-            if os.environ.get('VERIF_PROGRESS'):
-                from collections import Counter
-                print('  [%5.0fs] %s p%d feas=%s lem %d/%d cf %.1fs tot %.1fs %s %s' % (time.time() - res.t0, ename, pidx, r.get('feasible'), r.get('lemmas_ok', 0), r.get('lemmas', 0), r.get('cf_time', 0), r.get('time', 0), dict(Counter(r.get('claims', {}).values())), r.get('cf_error', '')), file=sys.stderr, flush=True)
-            res.solver['queries'] += st['queries']; res.solver['time'] += st['time']; res.solver['procs'] += st['procs']
+    for fn, ename, pidx, r, st, err in pool_map(_prove_entry, jobs, opts, res):
+        if err:
+            res.errors.append({'what': 'prover exception', 'entry': ename, 'path': pidx, 'diag': err[-3000:]}); continue
+        results.setdefault((fn, ename), {})[pidx] = r
+        res.solver['queries'] += st['queries']; res.solver['time'] += st['time']; res.solver['procs'] += st['procs']
+        if os.environ.get('VERIF_PROGRESS'):
+            from collections import Counter
+            print('  [%5.0fs] %s p%d feas=%s lem %d/%d cf %.1fs tot %.1fs %s %s' % (time.time() - res.t0, ename, pidx, r.get('feasible'), r.get('lemmas_ok', 0), r.get('lemmas', 0), r.get('cf_time', 0), r.get('time', 0), dict(Counter(r.get('claims', {}).values())), r.get('cf_error', '')), file=sys.stderr, flush=True)
     return specs, built, dagfiles, results
 
 def finish_sym(res, specs, built, dagfiles, results, opts):
@@ -372,8 +400,8 @@ def run_trunc(res, specs, opts):
         for e in dagm.load(fn):
             for p in e.paths: jobs.append((fn, e.name, p.idx, o2))
     stats = {'taylor_paths': 0, 'bound_queries': 0, 'bound_ok': 0, 'identical': 0, 'bounded': 0, 'zero_case': 0, 'numeric_only': 0}
-    with ProcessPoolExecutor(opts.get('procs', 8)) as ex:
-        for fn, ename, pidx, r, st, err in ex.map(_trunc_job, jobs):
+    if True:
+        for fn, ename, pidx, r, st, err in pool_map(_trunc_job, jobs, opts, res):
             res.solver['queries'] += st['queries']; res.solver['time'] += st['time']; res.solver['procs'] += st['procs']
             if err:
                 res.errors.append({'what': 'trunc exception', 'entry': ename, 'path': pidx, 'diag': err[-3000:]}); continue
